@@ -58,7 +58,7 @@ def wire_trace(ctx):
     req += [f"dec-entry:{e}" for e in ("take_from_bytes", "from_bytes", "from_io", "from_eio", "deserializer")]
     req += [f"dec-shape:{k}" for k in ("u16", "i16", "u32", "i32", "u64", "i64", "u128", "i128", "usize", "isize", "f32", "f64", "char", "str", "bytes", "bool",
                                        "opt", "seq", "map", "tuple", "struct", "enum", "newtype_struct", "tuple_struct", "unit", "unit_struct", "u8", "i8")]
-    req += ["seqhdr", "sequnk", "cstr:ok", "refused"]
+    req += ["seqhdr", "sequnk", "collected", "cstr:ok", "refused"]
     return trace_stage(ctx, "wire", cmds, "Trace_Wire", nontrivial=lambda e: not (e.get("op") == "dec" and e.get("input") == []), require=req)
 
 
